@@ -266,7 +266,7 @@ where
         let MultiIt { it, ctx, info } = m;
         // remainder of every iterator: exactly its own undelivered suffix
         let rem: Vec<Ident> = it.into_seq_iter().map(|x| x.ident(&info)).collect();
-        let h = Hist { info: &info, recs: &ctx.recs, nthreads: 4, realtime: true, remainder: Some(&rem), remainder_complete: true, torn: false, injected: false, drain_overrun: false, finish_panic: None, sched: None, frozen: false };
+        let h = Hist { info: &info, recs: &ctx.recs, nthreads: 4, realtime: true, remainder: Some(&rem), remainder_complete: true, torn: false, injected: false, drain_overrun: false, finish_panic: None, sched: None, frozen: false, seq_stuck: false };
         let (v, _) = rules::check(&h);
         for mut x in v {
             x.detail = format!("iterator #{} (start position {}): {}", ctx.tid, info.start_pos, x.detail);
@@ -277,8 +277,12 @@ where
     (viol, n_its, clones, trace)
 }
 
+fn clone_it<C: Clone>(c: &C) -> C {
+    c.clone()
+}
+
 /// two iterators over the same collection, each driven by its own group of free-running threads
-fn multi_concurrent<C: ConcurrentIter>(mk: impl Fn() -> C, base: &SrcInfo, rng: &mut Rng, p: &Profile) -> (Vec<Violation>, Vec<J>)
+fn multi_concurrent<C: ConcurrentIter>(mk: impl Fn() -> C, cloner: Option<fn(&C) -> C>, base: &SrcInfo, rng: &mut Rng, p: &Profile) -> (Vec<Violation>, Vec<J>)
 where
     C::Item: Elem,
 {
@@ -287,7 +291,26 @@ where
     crate::sched::RACE_MODE.store(false, Relaxed);
     crate::sched::CLOCK.store(1, std::sync::atomic::Ordering::SeqCst);
     let gate = std::sync::atomic::AtomicUsize::new(0);
+    let clone_log: std::sync::Mutex<Vec<(usize, Vec<u64>)>> = std::sync::Mutex::new(Vec::new());
     let logs: Vec<Vec<Rec>> = std::thread::scope(|s| {
+        if let Some(cl) = cloner {
+            // a fifth thread clones iterator 0 again and again while its two threads pull from it
+            let it0 = &its[0];
+            let gate = &gate;
+            let clone_log = &clone_log;
+            s.spawn(move || {
+                while gate.load(Relaxed) < 4 {
+                    std::thread::yield_now();
+                }
+                for _ in 0..3 {
+                    let c = cl(it0);
+                    let first = c.next_id_and_value().map(|x| x.idx);
+                    let ids: Vec<u64> = c.into_seq_iter().map(|x| x.ident(base).id).collect();
+                    clone_log.lock().unwrap().push((first.unwrap_or(usize::MAX), ids));
+                    std::thread::yield_now();
+                }
+            });
+        }
         let hs: Vec<_> = (0..4usize)
             .map(|t| {
                 let it = &its[t / 2];
@@ -307,12 +330,30 @@ where
         hs.into_iter().map(|h| h.join().expect("worker")).collect()
     });
     let mut viol = Vec::new();
+    // every clone is a consistent cursor of its own: its first pull and its remainder are consecutive
+    for (first, ids) in clone_log.lock().unwrap().iter() {
+        let mut expect = if *first == usize::MAX { None } else { Some(*first as u64 + 1) };
+        for id in ids {
+            if let Some(e) = expect {
+                if *id != e {
+                    viol.push(Violation { rule: "CLONE-CURSOR", props: &["C19"], detail: format!("a clone taken while other threads pull from the original delivered position {} where {} was expected", id, e) });
+                    break;
+                }
+            }
+            expect = Some(id + 1);
+        }
+        if let Some(e) = expect {
+            if e != base.len as u64 && !(ids.is_empty() && *first == usize::MAX) {
+                viol.push(Violation { rule: "CLONE-CURSOR", props: &["C19"], detail: format!("a clone's remainder ends at position {} of {}", e, base.len) });
+            }
+        }
+    }
     let [a, b] = its;
     for (k, it) in [a, b].into_iter().enumerate() {
         let mut recs: Vec<Rec> = logs[2 * k].iter().chain(logs[2 * k + 1].iter()).cloned().collect();
         recs.sort_by_key(|r| (r.t0, r.thread));
         let rem: Vec<Ident> = it.into_seq_iter().map(|x| x.ident(base)).collect();
-        let h = Hist { info: base, recs: &recs, nthreads: 4, realtime: true, remainder: Some(&rem), remainder_complete: true, torn: false, injected: false, drain_overrun: false, finish_panic: None, sched: None, frozen: false };
+        let h = Hist { info: base, recs: &recs, nthreads: 4, realtime: true, remainder: Some(&rem), remainder_complete: true, torn: false, injected: false, drain_overrun: false, finish_panic: None, sched: None, frozen: false, seq_stuck: false };
         let (v, _) = rules::check(&h);
         for mut x in v {
             x.detail = format!("iterator #{} of two over the same collection, each pulled by its own two threads: {}", k, x.detail);
@@ -361,7 +402,7 @@ pub fn cmd_multi(a: &Args) -> i32 {
                 info.kind = "range";
                 info.range_start = (salt % 1000) as usize;
                 let r = info.range_start..info.range_start + len;
-                let out = multi_concurrent(|| r.con_iter(), &info, &mut rng, &pp);
+                let out = multi_concurrent(|| r.con_iter(), Some(clone_it), &info, &mut rng, &pp);
                 viol = out.0;
                 n_its = 2;
                 clones = 0;
@@ -371,7 +412,7 @@ pub fn cmd_multi(a: &Args) -> i32 {
                 let src = crate::probe::mk_tk_vec(len, salt);
                 info.base_addr = src.as_ptr() as usize;
                 info.stride = std::mem::size_of::<Tk>();
-                let out = if kind == "vec_ref" { multi_concurrent(|| src.con_iter(), &info, &mut rng, &pp) } else { multi_concurrent(|| src.as_slice().into_con_iter(), &info, &mut rng, &pp) };
+                let out = if kind == "vec_ref" { multi_concurrent(|| src.con_iter(), Some(clone_it), &info, &mut rng, &pp) } else { multi_concurrent(|| src.as_slice().into_con_iter(), Some(clone_it), &info, &mut rng, &pp) };
                 viol = out.0;
                 n_its = 2;
                 clones = 0;
@@ -1096,9 +1137,18 @@ pub fn cmd_leak(a: &Args) -> i32 {
         let mut deltas: Vec<i64> = Vec::new();
         let kindname: String;
         if e % 2 == 0 {
-            let c = make_case(&ra, e / 2);
+            let mut c = make_case(&ra, e / 2);
+            // a quarter of the histories also contain a fault: what was not delivered must still be released
+            if e % 8 == 6 {
+                let k = rng.below(c.len + 2) as i64;
+                c.cfg.inject = match rng.below(3) {
+                    0 => Inject::Closure(k),
+                    1 => Inject::Drop(k),
+                    _ => Inject::WrappedNext(k),
+                };
+            }
             kindname = c.kind.clone();
-            desc = J::obj().set("case", J::S(format!("{}:0", e))).set("kind", J::s(&c.kind)).set("len", J::u(c.len)).set("threads", J::u(c.cfg.scripts.len())).set("scripts", J::A(c.cfg.scripts.iter().map(|s| s.render()).collect())).set("finish", J::S(format!("{:?}", c.cfg.finish)));
+            desc = J::obj().set("case", J::S(format!("{}:0", e))).set("kind", J::s(&c.kind)).set("len", J::u(c.len)).set("threads", J::u(c.cfg.scripts.len())).set("scripts", J::A(c.cfg.scripts.iter().map(|s| s.render()).collect())).set("finish", J::S(format!("{:?}", c.cfg.finish))).set("fault", J::S(format!("{:?}", c.cfg.inject)));
             for rep in 0..=reps {
                 alloc::ENABLED.store(true, Relaxed);
                 let before = alloc::snapshot();
@@ -1279,4 +1329,153 @@ pub fn cmd_lowlevel(a: &Args) -> i32 {
     let _ = PROBE.calls.load(Relaxed);
     let _ = DriveVisitor;
     (viol > 0) as i32
+}
+
+// =================================================================================================
+// zst: zero-sized element types on the consuming kinds (counts, indices, destructor runs)
+// =================================================================================================
+
+static ZDROPS: std::sync::atomic::AtomicUsize = std::sync::atomic::AtomicUsize::new(0);
+struct Z;
+impl Drop for Z {
+    fn drop(&mut self) {
+        ZDROPS.fetch_add(1, Relaxed);
+    }
+}
+
+fn zst_case<C: ConcurrentIter<Item = Z>>(it: C, len: usize, style: usize, n: usize, threads: usize) -> Result<(), String> {
+    use std::sync::atomic::AtomicUsize;
+    let seen: Vec<AtomicUsize> = (0..len + 1).map(|_| AtomicUsize::new(0)).collect();
+    let delivered = AtomicUsize::new(0);
+    let bad_idx = AtomicUsize::new(0);
+    let mark = |i: usize| {
+        if i < len {
+            seen[i].fetch_add(1, Relaxed);
+        } else {
+            bad_idx.fetch_add(1, Relaxed);
+        }
+    };
+    let work = |it: &C, t: usize| match (style + t) % 6 {
+        0 => it.for_each(n, |_z| {
+            delivered.fetch_add(1, Relaxed);
+        }),
+        1 => it.enumerate_for_each(n, |i, _z| {
+            delivered.fetch_add(1, Relaxed);
+            mark(i);
+        }),
+        2 => {
+            let c = it.fold(n, 0usize, |a, _z| a + 1);
+            delivered.fetch_add(c, Relaxed);
+        }
+        3 => {
+            while let Some(c) = it.next_chunk(n) {
+                let b = c.begin_idx;
+                let l = c.values.len();
+                let mut k = 0;
+                for _z in c.values {
+                    mark(b + k);
+                    k += 1;
+                }
+                if k != l {
+                    bad_idx.fetch_add(1, Relaxed);
+                }
+                delivered.fetch_add(k, Relaxed);
+            }
+        }
+        4 => {
+            let mut b = it.buffered_iter(n);
+            while let Some(c) = b.next() {
+                let bg = c.begin_idx;
+                let mut k = 0;
+                for _z in c.values {
+                    mark(bg + k);
+                    k += 1;
+                }
+                delivered.fetch_add(k, Relaxed);
+            }
+        }
+        _ => {
+            while let Some(x) = it.next_id_and_value() {
+                mark(x.idx);
+                delivered.fetch_add(1, Relaxed);
+            }
+        }
+    };
+    if threads <= 1 {
+        work(&it, 0);
+    } else {
+        let itr = &it;
+        let w = &work;
+        std::thread::scope(|s| {
+            for t in 0..threads {
+                s.spawn(move || w(itr, t));
+            }
+        });
+    }
+    let rest = it.into_seq_iter().count();
+    let d = delivered.load(Relaxed);
+    if d + rest != len || rest != 0 {
+        return Err(format!("{} of {} zero-sized elements were delivered ({} left for into_seq_iter)", d, len, rest));
+    }
+    if bad_idx.load(Relaxed) > 0 {
+        return Err("an index outside the source / a chunk whose length disagrees with its items was reported".into());
+    }
+    Ok(())
+}
+
+pub fn cmd_zst(a: &Args) -> i32 {
+    let t0 = std::time::Instant::now();
+    let mut cases = 0u64;
+    let mut violations = 0u64;
+    let mut nontrivial = 0u64;
+    for kind in ["vec", "array", "stdvec_iter"] {
+        for len in [0usize, 1, 2, 5, 8, 33, 1000] {
+            for style in 0..6usize {
+                for n in [1usize, 2, 3, 7, 64] {
+                    for threads in [1usize, 3] {
+                        ZDROPS.store(0, Relaxed);
+                        let r = catch_unwind(AssertUnwindSafe(|| match kind {
+                            "vec" => zst_case((0..len).map(|_| Z).collect::<Vec<Z>>().into_con_iter(), len, style, n, threads),
+                            "stdvec_iter" => zst_case((0..len).map(|_| Z).collect::<Vec<Z>>().into_iter().into_con_iter(), len, style, n, threads),
+                            _ => match len {
+                                0 => zst_case(std::array::from_fn::<Z, 0, _>(|_| Z).into_con_iter(), 0, style, n, threads),
+                                1 => zst_case(std::array::from_fn::<Z, 1, _>(|_| Z).into_con_iter(), 1, style, n, threads),
+                                2 => zst_case(std::array::from_fn::<Z, 2, _>(|_| Z).into_con_iter(), 2, style, n, threads),
+                                5 => zst_case(std::array::from_fn::<Z, 5, _>(|_| Z).into_con_iter(), 5, style, n, threads),
+                                8 => zst_case(std::array::from_fn::<Z, 8, _>(|_| Z).into_con_iter(), 8, style, n, threads),
+                                33 => zst_case(std::array::from_fn::<Z, 33, _>(|_| Z).into_con_iter(), 33, style, n, threads),
+                                _ => zst_case(std::array::from_fn::<Z, 1000, _>(|_| Z).into_con_iter(), 1000, style, n, threads),
+                            },
+                        }));
+                        cases += 1;
+                        if len > 1 {
+                            nontrivial += 1;
+                        }
+                        let mut problem = match r {
+                            Ok(Ok(())) => None,
+                            Ok(Err(e)) => Some(e),
+                            Err(_) => Some(format!("panicked: {}", LAST_PANIC.with(|c| c.borrow().clone()))),
+                        };
+                        let drops = ZDROPS.load(Relaxed);
+                        if problem.is_none() && drops != len {
+                            problem = Some(format!("{} destructor runs for {} zero-sized elements", drops, len));
+                        }
+                        if let Some(p) = problem {
+                            violations += 1;
+                            if violations <= 4 {
+                                let case = J::obj().set("case", J::S(format!("zst:{}:{}:{}:{}:{}", kind, len, style, n, threads))).set("kind", J::s(kind)).set("len", J::u(len)).set("style", J::s(["for_each", "enumerate_for_each", "fold", "next_chunk", "buffered_iter", "next_id_and_value"][style])).set("chunk_size", J::u(n)).set("threads", J::u(threads));
+                                let mut j = violation_json("ZST", &["C01", "C12", "C08", "C03"], &format!("zero-sized element type: {}", p), case, vec!["zst".into()]);
+                                j.put("kind", J::s(kind));
+                                j.put("len", J::u(len));
+                                emit(j);
+                            }
+                        }
+                    }
+                }
+            }
+        }
+    }
+    let _ = a;
+    emit(J::obj().set("t", J::s("summary")).set("engine", J::s("zst")).set("cases", J::u64(cases)).set("distinct_nontrivial", J::u64(nontrivial)).set("violations", J::u64(violations)).set("wall_s", J::F(t0.elapsed().as_secs_f64())));
+    (violations > 0) as i32
 }
